@@ -10,6 +10,7 @@ import (
 	"reflect"
 	"runtime"
 	"strconv"
+	"strings"
 	"sync"
 	"testing"
 
@@ -194,6 +195,7 @@ func c07Run(c c07Case, x *vh.Ctx) *vh.Failure {
 			return vh.Fail("C07/instance-broken-afterwards", "op %d (%s %s) on the shared instance after the concurrent phase: %.300s %s\nalone %.300s", i, op.Kind, op.T, o, pn, want[i])
 		}
 	}
+	c07Last.preempt, c07Last.points, c07Last.trace = s.Preempt, len(s.Trace), strings.Join(s.Trace, ",")
 	building := false
 	for _, pt := range s.PreemptPoints {
 		if pt == "map-key-read" || pt == "struct-field" || pt == "struct-start" || pt == "struct-before-index" || pt == "struct-before-publish" || pt == "before-store" || pt == "registry-miss" {
@@ -206,6 +208,12 @@ func c07Run(c c07Case, x *vh.Ctx) *vh.Failure {
 		x.NonTrivial()
 	}
 	return nil
+}
+
+// c07Last describes the most recent scheduled run (properties run sequentially).
+var c07Last struct {
+	preempt, points int
+	trace           string
 }
 
 var c07 = &vh.Prop[c07Case]{
@@ -280,14 +288,20 @@ func TestC07Enumerate(t *testing.T) {
 					if f := c07.Try(probe); f != nil {
 						t.Fatalf("C07/enumerated %s", f.Error())
 					}
-					npts := 90
+					npts := c07Last.points + 2
+					if npts > 90 {
+						npts = 90
+					}
 					run := func(ch []int) {
 						c := c07Case{Family: name, Ops: ops, Choices: ch}
 						if f := c07.Try(c); f != nil {
 							t.Fatalf("C07/enumerated %s", f.Error())
 						}
 						total++
-						nontrivial++
+						// distinct = a different interleaving actually happened (by trace)
+						st.Record([]byte(name+"|"+kinds[0]+kinds[1]+"|"+c07Last.trace), c07Last.preempt > 0, []string{"family:" + name}, func() any {
+							return map[string]any{"family": name, "ops": []string{kinds[0] + " " + fam[a].String(), kinds[1] + " " + fam[b].String()}, "choices": ch}
+						})
 					}
 					for i := 0; i < npts; i++ {
 						ch := make([]int, i+1)
@@ -305,9 +319,9 @@ func TestC07Enumerate(t *testing.T) {
 			}
 		}
 	}
-	st.AddEnumerated(total, nontrivial)
-	st.AddSample(map[string]any{"schedules": fmt.Sprintf("two goroutines, preemption at every (pair of) scheduling point(s) up to 90, <=%d preemptions", maxPre)})
-	st.SetExhaustive(fmt.Sprintf("two-goroutine-schedules-shard-%d", shard), map[string]any{"exhaustive": true, "max_preemptions": maxPre, "scheduling_points": 90, "runs": total})
+	_ = nontrivial
+	st.AddSample(map[string]any{"schedules": fmt.Sprintf("two goroutines, preemption at every (pair of) scheduling point(s) of the run (at most 90), <=%d preemptions", maxPre)})
+	st.SetExhaustive(fmt.Sprintf("two-goroutine-schedules-shard-%d", shard), map[string]any{"exhaustive": true, "max_preemptions": maxPre, "scheduling_points": "all of each run, at most 90", "runs": total})
 }
 
 // c07FixedVal builds a deterministic, non-trivial value of the type.
